@@ -10,6 +10,7 @@ import (
 	"github.com/enbility/ship-go/logging"
 	"github.com/enbility/spine-go/api"
 	"github.com/enbility/spine-go/model"
+	"github.com/enbility/spine-go/util"
 )
 
 type DeviceRemote struct {
@@ -250,6 +251,13 @@ func (d *DeviceRemote) AddEntityAndFeatures(initialData bool, data *model.NodeMa
 					entity.AddFeature(f)
 				}
 			}
+		}
+
+		// the device information entity always has its NodeManagement feature,
+		// even if the announced feature list does not contain it
+		if reflect.DeepEqual(entityAddress, DeviceInformationAddressEntity) &&
+			entity.FeatureOfAddress(util.Ptr(model.AddressFeatureType(NodeManagementFeatureId))) == nil {
+			entity.AddFeature(NewFeatureRemote(NodeManagementFeatureId, entity, model.FeatureTypeTypeNodeManagement, model.RoleTypeSpecial))
 		}
 	}
 
